@@ -304,6 +304,9 @@ def native_replay(scr, h, test_src, test_name, profile_release=False):
     hook = os.path.join(scr.hooks, rel)
     orig = open(hook).read()
     sub = h.ann.get('_mod', '')
+    # the generated test uses Vec / vec!, which are not in scope in no_std crates
+    test_src = re.sub(r'(fn\s+kani_concrete_playback_\w+\s*\(\)\s*\{)',
+                      r'\1\n    extern crate std;\n    #[allow(unused_imports)]\n    use std::{vec, vec::Vec};', test_src, count=1)
     try:
         if sub:
             # harness lives in an inline module that closes at the end of the file: put the test inside it
